@@ -258,7 +258,8 @@ Fixpoint use_ctx_from (g : nat) (ty : nat) (id : nat) (first : bool) (s : state)
   | O => Err OutOfFuel s
   | S g' =>
       match nodes s !! id with
-      | None => Err (Runtime (if first then 13 else 14)) s
+      | None => if fx && negb first then Ok None s            (* fix of F21: a parent that is gone ends the walk *)
+                else Err (Runtime (if first then 13 else 14)) s
       | Some nd =>
           match ctx_find ty (n_context nd) with
           | Some v => Ok (Some v) s
